@@ -3841,6 +3841,37 @@ def main():
         T(t, "qasm/int/mod.rs", "process_nodes", "int_process_nodes", struct="Int", impl=I, default_elem="str", param_types={"nodes": NODES})
         T(t, "qasm/int/mod.rs", "ast_changes", "int_ast_changes", struct="Int", impl=I, default_elem="str")
         T(t, "qasm/int/mod.rs", "add_ast", "int_add_ast", struct="Int", impl=I, default_elem="str")
+        # A `Result`-returning translation carries no state on Err: for `add_ast(&mut self, ..)` that is right only if nothing
+        # has touched `self` when an error leaves the function. Checked on the statement list: no assignment to `self` /
+        # `&mut self` argument / mutating method on `self` precedes a `?` or `return Err`.
+        body = find_fn(t, "add_ast", impl=I)[2]
+        touched, keeps = False, True
+        def mutates_self(x):
+            for n in walk(x):
+                if isinstance(n, tuple) and n:
+                    if n[0] == "assign" and ("path", ["self"]) in list(walk(n[1])):
+                        return True
+                    if n[0] == "refmut" and unparen(n[1]) == ("path", ["self"]):
+                        return True
+                    if n[0] == "mcall" and unparen(n[1]) == ("path", ["self"]) and n[2] in tr.mut_method_names and \
+                            any("self" in sg.muts for sg in tr.sigs_named(n[2])):
+                        return True
+                    if n[0] == "mcall" and n[2] not in ("clone", "iter", "len", "ast_changes") and unparen(n[1])[0] == "field" and \
+                            unparen(unparen(n[1])[1]) == ("path", ["self"]) and n[2] in ("push", "append", "extend", "insert", "clear", "pop", "push_back"):
+                        return True
+            return False
+        for st in body[1]:
+            exits = contains(st, ("try", "return"))
+            if exits and (touched or (mutates_self(st) and st[0] != "assign")):
+                keeps = False
+            if mutates_self(st):
+                touched = True
+        tl = unparen(body[2]) if body[2] is not None else None
+        if touched and not (tl and tl[0] == "call" and unparen(tl[1]) == ("path", ["Ok"])):
+            keeps = False        # the value of the function is computed after `self` was touched and may be an Err
+        tr.out.append("/-- `add_ast`: no statement has touched `self` when a `?` / `return Err` leaves the function (syntactic check of the "
+                      "statement list), so the session of a rejected chunk is the session as it was -/\n"
+                      f"def int_add_ast_err_keeps_self : Bool := {'true' if keeps else 'false'}\n")
         T(t, "qasm/int/mod.rs", "new", "int_new", struct="Int", impl=I, default_elem="str")
         tr.out.append("end intstmts\n")
     group("qasm/int/mod.rs", intfile2)
